@@ -401,6 +401,20 @@ func above(l []seen, limit int) (who []string, size int) {
 	return
 }
 
+// sawOtherThan lists who saw a request whose size is not the probes' size.
+func sawOtherThan(l []seen, probe int) (who []string) {
+	other := false
+	for _, s := range l {
+		if s.Who == "io" {
+			other = s.Size != probe
+		}
+		if other {
+			who = append(who, s.Who)
+		}
+	}
+	return
+}
+
 func (x *executor) run(sc Scenario) {
 	x.res.Evals++
 	lk, ok := linkByName(sc.Link)
@@ -605,6 +619,12 @@ func (x *executor) raw(sc Scenario, lk link, call []byte) {
 		if who, size := above(log, sc.Limit); len(who) > 0 {
 			x.res.violate(sc, "processed-above-limit",
 				fmt.Sprintf("limit %d: %d bytes were sent (declared %d, chunk %d); a %d-byte request was seen by %v", sc.Limit, sc.Size, sc.Declared, sc.Chunk, size, who))
+		} else if who := sawOtherThan(log, len(sentinelCall)); fr == "udp" && sc.Decl == "smaller" && sc.Size > sc.Limit && len(who) > 0 {
+			// a datagram is one message: its body is what arrived, whatever its header declares. One that carries
+			// more than the limit must not be processed, not even the part its header admits to (the settle
+			// probes of the harness are the only other traffic; they have a size of their own)
+			x.res.violate(sc, "oversize-datagram-processed-in-part",
+				fmt.Sprintf("limit %d: a datagram with a %d-byte body declaring %d bytes was sent; it was not dropped: %s", sc.Limit, sc.Size, sc.Declared, showSeen(log)))
 		} else if sc.Decl == "absent" && sc.Via != "raw-no-length" && sc.Size > sc.Limit && len(log) > 0 {
 			// (an HTTP request with neither Content-Length nor chunked coding has an empty body by definition: the
 			// bytes after its head are not part of it, so raw-no-length is excluded)
